@@ -42,6 +42,7 @@ Definition h_content_type := s [67;111;110;116;101;110;116;45;84;121;112;101].
 Definition h_grpc_status := s [71;114;112;99;45;83;116;97;116;117;115].
 Definition h_grpc_encoding := s [71;114;112;99;45;69;110;99;111;100;105;110;103].
 Definition h_connect_encoding := s [67;111;110;110;101;99;116;45;67;111;110;116;101;110;116;45;69;110;99;111;100;105;110;103].
+Definition h_unary_encoding := s [67;111;110;116;101;110;116;45;69;110;99;111;100;105;110;103]. (* Content-Encoding *)
 Definition v_identity := s [105;100;101;110;116;105;116;121].
 Definition v_app_json := s [97;112;112;108;105;99;97;116;105;111;110;47;106;115;111;110].
 Definition k_grpc_status_lower := s [103;114;112;99;45;115;116;97;116;117;115].
@@ -72,6 +73,15 @@ Definition is_nil_l (l : bytes) : bool := match l with [] => true | _ => false e
 Definition names_algorithm (enc : list bytes) : bool :=
   match enc with
   | [e] => negb (is_nil_l e) && negb (bs_eqb e v_identity)
+  | _ => false
+  end.
+
+(* an encoding header, when present, carries exactly one content-coding, and a content-coding
+   is a non-empty token ("identity" / "gzip" / ... in all three protocol documents) *)
+Definition encoding_wellformed (enc : list bytes) : bool :=
+  match enc with
+  | [] => true
+  | [e] => negb (is_nil_l e)
   | _ => false
   end.
 
@@ -139,6 +149,7 @@ Definition one_status (vs : list bytes) : option N :=
 Definition spec_decode_grpc (req_ct : bytes) (r : response) : option decoded :=
   if negb (r_status r =? 200) then None
   else if negb (match values h_content_type (r_header r) with [ct] => bs_eqb ct req_ct | _ => false end) then None
+  else if negb (encoding_wellformed (values h_grpc_encoding (r_header r))) then None
   else match frames_of (r_body r) with
        | None => None
        | Some fs =>
@@ -159,6 +170,7 @@ Definition spec_decode_grpc (req_ct : bytes) (r : response) : option decoded :=
 Definition spec_decode_grpcweb (req_ct : bytes) (r : response) : option decoded :=
   if negb (r_status r =? 200) then None
   else if negb (match values h_content_type (r_header r) with [ct] => bs_eqb ct req_ct | _ => false end) then None
+  else if negb (encoding_wellformed (values h_grpc_encoding (r_header r))) then None
   else match frames_of (r_body r) with
        | None => None
        | Some fs =>
@@ -195,6 +207,7 @@ Definition code_of_name (n : bytes) : option N :=
 Definition spec_decode_connect_stream (req_ct : bytes) (end_json : jsum) (r : response) : option decoded :=
   if negb (r_status r =? 200) then None
   else if negb (match values h_content_type (r_header r) with [ct] => bs_eqb ct req_ct | _ => false end) then None
+  else if negb (encoding_wellformed (values h_connect_encoding (r_header r))) then None
   else match frames_of (r_body r) with
        | None => None
        | Some fs =>
@@ -214,7 +227,8 @@ Definition spec_decode_connect_stream (req_ct : bytes) (end_json : jsum) (r : re
 
 (* Connect unary: success = 200 + echoed content type; error = JSON under the code's HTTP status *)
 Definition spec_decode_connect_unary (req_ct : bytes) (body_json : jsum) (r : response) : option decoded :=
-  if r_status r =? 200 then
+  if negb (encoding_wellformed (values h_unary_encoding (r_header r))) then None
+  else if r_status r =? 200 then
     if match values h_content_type (r_header r) with [ct] => bs_eqb ct req_ct | _ => false end
     then Some ([(false, r_body r)], 0) else None
   else
